@@ -15,6 +15,7 @@ EXPLANATION = (
     "filter e_start <= epoch < e_post_end (∧ pubkey == key) and sum syms_staked. R6 new stakes are added, all of them, only after create_next_state succeeded."
     " R1/R2 read the roles (doc, epoch, coin) of stake_is_consistent off its call site (parameter order is a spelling); R5 accepts `.sum()` or a fold with an addition step; R6 accepts the per-stake step as a `for` loop or as a for_each closure."
     " Shared: C07.R6 (every registered stake gets its leaf in the committed tree, none skipped) and C07.R1 (stakes_hash is that tree's root)."
+    " R3 `unstaked/passes`: an input that belongs to no stake is never refused as locked. R3f: the batch's new stakes (load_stake_info) reach check_tx_validity, read off the call site. Shared: C01.R10."
 )
 NOT_DECIDED = ["that a genuinely expired stake's coin is spendable again over a whole history (follows from R3+R4+R5, not separately shown)",
                "the legacy-window exemptions contradict the property for historical heights by design; the rules confine them, they do not remove them"]
